@@ -49,12 +49,19 @@ func (b *c07Builder) node(name string) *yaml.Node {
 		} else {
 			ks, _ := em["k"].(string)
 			k = &yaml.Node{Kind: yaml.ScalarNode, Tag: "!!str", Value: ks}
-			if tag, sp := c07Spell(ks, b.rng); b.spell && tag != "" {
+			tag, sp := c07Spell(ks, b.rng)
+			if b.spell && tag != "" {
 				k = &yaml.Node{Kind: yaml.ScalarNode, Tag: tag, Value: sp}
-			} else if b.akeys && b.rng.Intn(3) == 0 {
+			}
+			if b.akeys && b.rng.Intn(3) == 0 {
+				// the key is written as an alias to an anchored scalar (itself in a non-canonical spelling when
+				// the case asks for spellings): an alias key stands for the anchored node, canonical form included
 				anc, ok := b.keyAnc[ks]
 				if !ok {
-					anc = &yaml.Node{Kind: yaml.ScalarNode, Tag: "!!str", Value: ks, Anchor: "key_" + ks}
+					anc = &yaml.Node{Kind: yaml.ScalarNode, Tag: "!!str", Value: ks, Anchor: fmt.Sprintf("key_%d", len(b.keyAnc))}
+					if b.spell && tag != "" {
+						anc.Tag, anc.Value = tag, sp
+					}
 					b.keyAnc[ks] = anc
 				}
 				k = &yaml.Node{Kind: yaml.AliasNode, Alias: anc, Value: anc.Anchor}
